@@ -201,3 +201,12 @@ Proof.
   revert i; induction l as [|b l IH]; intros i; simpl; [tauto|].
   destruct b; simpl; [apply IH|split; discriminate].
 Qed.
+
+Lemma NoDup_app_singleton {A} (l : list A) x : NoDup l -> ~ In x l -> NoDup (l ++ [x]).
+Proof.
+  induction l as [|y l IH]; simpl; intros Hnd Hn.
+  - constructor; [intros []|constructor].
+  - inversion Hnd; subst. constructor.
+    + rewrite in_app_iff. simpl. intros [H|[H|[]]]; [contradiction|subst; apply Hn; left; reflexivity].
+    + apply IH; [assumption|]. intro; apply Hn; right; assumption.
+Qed.
